@@ -61,7 +61,9 @@ def oracle_categorical(ctx: Ctx, case):
         if not mask[i]:
             ctx.check(lp == -np.inf, "C16/masked-action-log-prob-not-minus-inf", tags=tags, action=i, log_prob=lp)
         else:
-            ctx.close(lp, np.log(ref[i]), "C16/masked-log-prob", tags=tags, rtol=2e-5, atol=2e-6 + _rtol(logits))
+            # log-domain reference (log(softmax) underflows to -inf below -745 in float64)
+            lref = special.log_softmax(np.where(mask, logits.astype(np.float64), -np.inf))[i]
+            ctx.close(lp, lref, "C16/masked-log-prob", tags=tags, rtol=2e-5, atol=2e-6 + _rtol(logits))
     mode = int(d.mode())
     ctx.check(bool(mask[mode]), "C16/mode-is-a-masked-action", tags=tags, mode=mode, mask=mask)
     ctx.check(ref[mode] >= ref.max() - 1e-6, "C16/mode-not-the-most-likely-allowed-action", tags=tags, mode=mode)
